@@ -242,6 +242,9 @@ impl<R: Read, TSpec> TagIterator<R, TSpec>
             return Ok(true)
         }
 
+        // The request must fit the buffer, otherwise a full buffer is mistaken for end of file
+        self.ensure_capacity(length);
+
         if self.buffer_offset.is_none() {
             if !self.private_read(0)? {
                 return Ok(false);
